@@ -184,9 +184,9 @@ ModCreate ==            \* mappyfile.create(n, version = v): defaults of the ver
         /\ Record([op |-> "mod_create", name |-> n, v |-> v])
         /\ UNCHANGED <<raw, exp>>
 
-Validate2 == Validate         \* (simulation draws uniformly among the disjuncts)
-Validate3 == Validate
-GetVersioned2 == GetVersioned
+Validate2 == Mode = "sim" /\ Validate         \* (simulation draws uniformly among the disjuncts)
+Validate3 == Mode = "sim" /\ Validate
+GetVersioned2 == Mode = "sim" /\ GetVersioned
 
 Init ==
     /\ raw = {}
